@@ -28,12 +28,12 @@ for pkg in sys.argv[1:]:
     for fn in sorted(os.listdir(d)):
         if not fn.endswith('.go') or fn.endswith('_test.go') or fn == 'contracts_verif.go': continue
         src = open(os.path.join(d, fn)).read()
-        for m in re.finditer(r'^func \((\w+) \*(\w+)\) Deserialization\((\w+) \*common\.ZeroCopySource\) error', src, re.M):
+        for m in re.finditer(r'^func \((\w+) \*(\w+)\) Deserialization\((\w+) \*\w+\.ZeroCopySource\) error', src, re.M):
             recv, typ, srcname = m.groups()
             if '//@ func (*%s).Deserialization' % typ in have: continue
             body = body_of(src, m.end() - 1)
             nloops = len(re.findall(r'\bfor\b', body))
-            lines = ['//@ func (*%s).Deserialization' % typ, '//@   property C04', '//@   mode abstract', '//@   nopanic on',
+            lines = ['//@ func (*%s).Deserialization' % typ, '//@   property ' + os.environ.get('PROP', 'C04'), '//@   mode abstract', '//@   nopanic on',
                      '//@   requires %s != nil && %s != nil && %s.off <= uint64(len(%s.s))' % (recv, srcname, srcname, srcname),
                      '//@   modifies *',
                      '//@   ensures %s.off <= uint64(len(%s.s))' % (srcname, srcname)]
